@@ -1268,3 +1268,35 @@ def loop_slice_cases():
             out.append(H3 + pre + lp % st + "\n")
             out.append(H3 + pre + "def outer(qubit[6] r, int[8] n) { for int i in [0:n] { %s } }\nouter(q, 1);\nouter(q, 2);\n" % st.replace("q[", "r[").replace("c[i:i+2] = measure r[i:i+2];", "reset r[i:i+2];").replace("measure r[i + 2] -> c[i];", "reset r[i + 2];").replace("f(", "f(").replace("let al = r[i:i+2]; cx al[0], al[1];", "cx r[i], r[i + 1];"))
     return out
+
+
+def repo_test_programs():
+    """every OpenQASM program of the repository's own test suite (resource files and string literals of tests/**/*.py),
+    read from the tree under test on every run: real-world shapes next to the generated ones"""
+    import ast
+    root = os.environ.get("VERIF_REPO", "/repo")
+    out = []
+    for dp, dn, fn in sorted(os.walk(os.path.join(root, "tests"))):
+        for f in sorted(fn):
+            p = os.path.join(dp, f)
+            try:
+                if f.endswith(".qasm"):
+                    out.append(open(p).read())
+                elif f.endswith(".py"):
+                    tree = ast.parse(open(p).read())
+                    for node in ast.walk(tree):
+                        if isinstance(node, ast.Constant) and isinstance(node.value, str) and "OPENQASM" in node.value:
+                            out.append(node.value)
+                        elif isinstance(node, ast.JoinedStr):
+                            parts = [v.value for v in node.values if isinstance(v, ast.Constant) and isinstance(v.value, str)]
+                            if len(parts) == len(node.values) and any("OPENQASM" in x for x in parts):
+                                out.append("".join(parts))
+            except Exception:
+                continue
+    seen, res = set(), []
+    for s in out:
+        s = s.strip() + "\n"
+        if s not in seen and s.lstrip().startswith(("OPENQASM", "//")):
+            seen.add(s)
+            res.append(s)
+    return res
